@@ -8,8 +8,10 @@ pointer parsed from that form.
 from __future__ import annotations
 
 import itertools
+import pickle
 
 from rt import impl, ref_pointer as rp
+from rt.foundry import ForeignFailed, foreign
 from rt.jsonval import h
 
 ID = "C16"
@@ -29,7 +31,7 @@ SUFFIXES = ["", "#", ["a"], ["0"], ["~", "/"], ["é", ""], ["m~n", "a/b", "10"],
 
 
 def plan(tier, seed):
-    specs = [{"kind": "exhaustive", "first": t} for t in ALPHABET] + [{"kind": "exhaustive", "first": None}, {"kind": "syntax"}, {"kind": "backslash"}, {"kind": "flags"}]
+    specs = [{"kind": "exhaustive", "first": t} for t in ALPHABET] + [{"kind": "exhaustive", "first": None}, {"kind": "syntax"}, {"kind": "backslash"}, {"kind": "flags"}, {"kind": "magnitude"}]
     for _ in range(4 if tier == "quick" else 14):
         specs.append({"kind": "depth3", "n": 6000 if tier == "quick" else 200000})
     return specs
@@ -42,7 +44,7 @@ def rel_text(steps, offset, suffix):
     return s + ("#" if suffix == "#" else rp.encode(suffix))
 
 
-def check(ctx, base, steps, offset, suffix):
+def check(ctx, base, steps, offset, suffix, all_routes=False):
     import jsonpath
     from jsonpath import JSONPointer, RelativeJSONPointer
 
@@ -79,8 +81,19 @@ def check(ctx, base, steps, offset, suffix):
         "pointer.to(text)": lambda: bp.to(text),
         "pointer.to(rel)": lambda: bp.to(c.value),
     }
+    if all_routes or ctx.rng.random() < 0.2:
+        routes["relative pointer from another interpreter"] = lambda: foreign("relative", text).to(bp)
+        routes["base from another interpreter"] = lambda: c.value.to(foreign("pointer", base_text, True, False))
+        routes["applied in another interpreter"] = lambda: foreign("relative_to", text, base_text)
+        routes["pickled"] = lambda: pickle.loads(pickle.dumps(c.value)).to(pickle.loads(pickle.dumps(bp)))
     for name, fn in routes.items():
         o = impl.call(fn)
+        if not o.ok and isinstance(o.exc, ForeignFailed):
+            if "applied in another" in name and fail:
+                continue
+            ctx.count("other_interpreter_could_not_deliver")
+            continue
+        ctx.cell("routes", name)
         if fail:
             if o.ok:
                 ctx.violation("forbidden-application-accepted", case, {"base": base_text, "relative": text, "route": name, "result": str(o.value), "why_forbidden": fail})
@@ -95,7 +108,8 @@ def check(ctx, base, steps, offset, suffix):
             if str(o.value) != want:
                 ctx.violation("application-yields-wrong-pointer", case, {"base": base_text, "relative": text, "route": name, "got": str(o.value), "expected": want})
                 return
-            if not marker and o.value != JSONPointer(want):
+            parsed = impl.call(JSONPointer, want)   # text with an index beyond the pointer parser's own limit cannot be parsed back
+            if not marker and parsed.ok and o.value != parsed.value:
                 ctx.violation("result-not-equal-to-parsed-expected", case, {"base": base_text, "relative": text, "got": str(o.value), "expected": want})
                 return
 
@@ -135,6 +149,34 @@ def run(spec, ctx):
             suffix = r.choice(SUFFIXES)
             ctx.case(h(base, steps, offset, suffix))
             check(ctx, base, steps, offset, suffix)
+    elif spec["kind"] == "magnitude":
+        # indices and offsets around and beyond 2^53 and 2^63/2^64: the draft bounds neither
+        from jsonpath import JSONPointer
+
+        big = [1, -1, 12, -12, 10 ** 15, -(10 ** 15), 10 ** 16, 2 ** 53, -(2 ** 53), 2 ** 63, 2 ** 64, 90071992547409931234, -90071992547409931234, 10 ** 30, 9007199254740986, -9007199254740986]
+        n = 0
+        for base in (("items", "9007199254740991"), ("items", "9007199254740980"), ("items", "5"), ("9007199254740991",), ("a", "0"), ("a", "4294967295"), ("a", "2147483647", "k")):
+            for steps in range(0, len(base) + 1):
+                for offset in big:
+                    for suffix in ("", "#", "/x/0"):
+                        ctx.case(h("magnitude", base, steps, offset, suffix))
+                        check(ctx, base, steps, offset, suffix)
+                        n += 1
+        # bases that only exist as token lists (an index beyond what pointer text may hold)
+        for idx in (2 ** 53, 2 ** 60, 2 ** 64 + 5, 10 ** 30):
+            for offset in (1, -1, 12, -(2 ** 53), 10 ** 20):
+                for steps, pre in ((0, ["items", idx]), (1, ["items", idx, "k"])):
+                    ctx.evaluation()
+                    text = rel_text(steps, offset, "")
+                    want = "/items/%d" % (idx + offset)
+                    o = impl.call(lambda: RelativeJSONPointer(text).to(JSONPointer.from_parts(pre)))
+                    n += 1
+                    if idx + offset < 0:
+                        if o.ok or not isinstance(o.exc, jsonpath.RelativeJSONPointerError):
+                            ctx.violation("forbidden-application-accepted", {"from_parts": [str(x) for x in pre], "text": text}, {"relative": text, "got": o.desc() if not o.ok else str(o.value)})
+                    elif not o.ok or str(o.value) != want:
+                        ctx.violation("application-yields-wrong-pointer:token-list-base", {"from_parts_index": str(idx), "text": text, "steps": steps}, {"relative": text, "base_tokens": [str(x) for x in pre], "got": o.desc() if not o.ok else str(o.value), "expected": want})
+        ctx.count("magnitude_combinations", n)
     elif spec["kind"] == "flags":
         from rt import flag_history
 
@@ -196,5 +238,7 @@ def replay(case, ctx):
         run({"kind": "flags"}, ctx)
     elif case.get("backslash"):
         run({"kind": "backslash"}, ctx)
+    elif "from_parts_index" in case or "from_parts" in case:
+        run({"kind": "magnitude"}, ctx)
     else:
-        check(ctx, tuple(case["base"]), case["steps"], case["offset"], case["suffix"])
+        check(ctx, tuple(case["base"]), case["steps"], case["offset"], case["suffix"], all_routes=True)
